@@ -780,6 +780,10 @@ func (t *T) skip(msg string) {
 }
 
 func (t *T) fail(now bool, msg string) {
+	if msg == "" {
+		msg = "(empty failure message)" // t.failed == "" means "not failed": t.Error() or t.Errorf("") must not hide or undo a failure
+	}
+
 	t.mu.Lock()
 	defer t.mu.Unlock()
 
